@@ -221,6 +221,9 @@ func (r *Runner) replayLine(l *Line) lineResult {
 	if r.cfg.Fam == "lift" && l.Fam == "light" {
 		return r.replayLiftLight(l)
 	}
+	if r.cfg.Fam == "lift" && l.Fam == "ops" {
+		return r.replayLiftOps(l)
+	}
 	switch l.Fam {
 	case "core":
 		return r.replayCore(l)
